@@ -967,8 +967,9 @@ impl Mon {
                 self.b.nb[ni].caps.remove(f);
             }
         }
-        // progress objects that disappeared lose their capacity model
-        if post.role == StateRole::Leader {
+        // progress objects that disappeared lose their capacity model (in every role: a follower tracks
+        // progress too, and a capacity set there is gone with the Progress when the peer leaves)
+        {
             let ids: HashSet<u64> = post.prs.iter().map(|p| p.id).collect();
             self.b.nb[ni].caps.retain(|k, _| ids.contains(k));
         }
